@@ -132,10 +132,40 @@ def other_store_visibility(ctx, info, rng):
     return {"other_store_visibility": {"cases": len(cases)}}
 
 
+def schedule_horizon(ctx, info, rng):
+    """instants outside the int64 nanosecond range (the Admin publish API accepts any RFC 3339 next_run_at / received_at): the queue model
+    is over unbounded integers, so these are judged on the stores directly - a message scheduled for the year 2263 / 2300 / 9999 is not
+    offered today, and under drop_oldest the message received in 1600 is the oldest"""
+    d = os.path.join(ctx.scratch, "sh")
+    os.makedirs(d, exist_ok=True)
+    rc, out, err = C.harness_run(info["hbin"], ["schedule-horizon"], {"dir": d, "now_ns": 1_790_000_000 * 10 ** 9, "years": [2100, 2262, 2263, 2300, 9999],
+                                                                    "old_years": [1970, 1700, 1677, 1600, 1000]}, timeout=120)
+    if rc != 0:
+        raise RuntimeError("schedule-horizon failed: " + err[-1500:])
+    rows = json.loads(out)["rows"]
+    for r in rows:
+        if r["case"].startswith("next_run_at"):
+            if r.get("err") or r["offered_now"] != 0 or r["state"] != "queued" or not r["next_after_now"]:
+                C.report(ctx, "schedule-beyond-int64-horizon:%s" % r["backend"],
+                         "a message enqueued with %s (1 January of that year) on the %s store: a dequeue at the current clock returned %d item(s), the message is %s, its "
+                         "listed next_run_at is %s the clock (%s) - a message scheduled for the future is not offered before its time" %
+                         (r["case"], r["backend"], r["offered_now"], r["state"], "after" if r["next_after_now"] else "NOT after", r.get("err") or "no error"),
+                         {"kind": "history", "case": {"backend": r["backend"], "next_run_at_year": r["case"], "calls": ["Enqueue(next_run_at = 1 Jan of the year)", "Dequeue(batch 5) now"]},
+                          "observed": r})
+        else:
+            if r.get("err") or r["evicted"] != "ancient":
+                C.report(ctx, "oldest-beyond-int64-horizon:%s" % r["backend"],
+                         "max_depth 2 drop_oldest on the %s store, messages received an hour ago and on %s (1 January of that year): a third enqueue evicted %r (%s); "
+                         "the oldest queued message is the one with the earliest received_at" % (r["backend"], r["case"], r["evicted"], r.get("err") or "no error"),
+                         {"kind": "history", "case": {"backend": r["backend"], "received_at_year": r["case"]}, "observed": r})
+    return {"schedule_horizon": {"rows": len(rows)}}
+
+
 def extras(ctx, info, rng, *rest):
     cov = long_poll(ctx, info, rng)
     cov.update(bulk_ready(ctx, info, rng))
     cov.update(other_store_visibility(ctx, info, rng))
+    cov.update(schedule_horizon(ctx, info, rng))
     return cov
 
 
